@@ -121,6 +121,8 @@ class Evaluator:
         self.lgs, self.m, self.lg = lgs, lgs.m, lg
         self.dom = Domain(lg.values)
         self.trace: set[str] = set()
+        self.kw_drops: set[tuple] = set()       # (caller location, callee): evaluation keywords (world=...) not passed on
+        self._cur: list = []
         self._aci: dict[str, bool] = {}
         self._depth = 0
 
@@ -147,6 +149,7 @@ class Evaluator:
         self._depth += 1
         if self._depth > 60:
             raise Unsupported(f'recursion too deep in {fn}')
+        self._cur.append(fn)
         try:
             self.trace.add(self.m.floc(fn))
             node = fn.node
@@ -174,6 +177,7 @@ class Evaluator:
             return r[1] if r else None
         finally:
             self._depth -= 1
+            self._cur.pop()
 
     # ---- recognised primitives (definitions with a loop over unbounded data) ----
     def _primitive(self, fn: FuncRef, kind):
@@ -571,6 +575,9 @@ class Evaluator:
             raise Unsupported(f'call {fn.id}()')
         f = self.ev(fn, env, owner, kind)
         args = self.evargs(e, env, owner, kind)
+        if isinstance(f, Bound) and f.kind == 'model' and 'KW' in [v for v in env.values() if isinstance(v, str)] \
+                and not any(k.arg is None for k in e.keywords) and f.name.startswith(('value_of', '_unquantify', '_unmodal')):
+            self.kw_drops.add((self.m.floc(self._cur[-1]) if self._cur else '?', f.name))
         return self.apply(f, args)
 
     # ---- tables -------------------------------------------------------------
@@ -645,6 +652,7 @@ class Semantics:
                     except Raises:
                         self.gen[o][S] = None
         self.consulted = sorted(self.ev.trace)
+        self.kw_drops = sorted(self.ev.kw_drops)
 
     def op(self, name, *args):
         return self.tables[name][tuple(args)]
